@@ -246,6 +246,15 @@ def run(scn, ch):
         return finish(world, res, aborted=str(e))
     finally:
         if scratch is not None:
+            # the FileStreams of this execution must not stay open in the long-lived explorer process (the fd-count
+            # scenario of a later execution would see them)
+            for w_ in getattr(world.arbiter, 'watchers', []) or []:
+                for st in (w_.stdout_stream, w_.stderr_stream):
+                    if st is not None and hasattr(st, 'close') and type(st).__name__ == 'FileStream':
+                        try:
+                            st.close()
+                        except Exception:
+                            pass
             if not world.closed:
                 world.close()
             scratch.close()
